@@ -329,18 +329,27 @@ func concurrentFlush(pageOp int) {
 	w.refreshPages()
 	pid := w.tmd.Table().GetFirstPageID()
 	done := make(chan bool, 2)
-	go func() {
+	flushLog := func() {
 		w.lm.Flush()
 		done <- true
-	}()
-	go func() {
+	}
+	flushPage := func() {
 		if pageOp == 0 {
 			w.bpm.FlushPage(pid)
 		} else {
 			w.bpm.FlushAllDirtyPages()
 		}
 		done <- true
-	}()
+	}
+	// both start orders (the engine explores every schedule anyway; natively the start order decides which
+	// goroutine the Go runtime runs first, so the replay of a counterexample follows the choice)
+	if vf.Choose(2) == 0 {
+		go flushLog()
+		go flushPage()
+	} else {
+		go flushPage()
+		go flushLog()
+	}
 	<-done
 	<-done
 	vf.Cover("c08.concurrent")
